@@ -20,20 +20,20 @@ type fdef struct {
 }
 
 type kase struct {
-	Kind   string  `json:"kind"`
-	Q      bool    `json:"q,omitempty"`       // linear.QSeq instead of linear.Seq
-	Prot   bool    `json:"protein,omitempty"` // non-complementing alphabet
-	L      int     `json:"len"`
-	Off    int     `json:"off"`
-	Circ   bool    `json:"circular,omitempty"`
-	Start  int     `json:"start,omitempty"`
-	End    int     `json:"end,omitempty"`
-	Same   bool    `json:"dst_is_src,omitempty"`
-	L2     int     `json:"len2,omitempty"`
-	Circ2  bool    `json:"circular2,omitempty"`
-	Where  int     `json:"where,omitempty"`
-	Feats  []fdef  `json:"feats,omitempty"`
-	Vals   []int   `json:"vals,omitempty"` // Trim: (limit - e) in quarters
+	Kind  string `json:"kind"`
+	Q     bool   `json:"q,omitempty"`       // linear.QSeq instead of linear.Seq
+	Prot  bool   `json:"protein,omitempty"` // non-complementing alphabet
+	L     int    `json:"len"`
+	Off   int    `json:"off"`
+	Circ  bool   `json:"circular,omitempty"`
+	Start int    `json:"start,omitempty"`
+	End   int    `json:"end,omitempty"`
+	Same  bool   `json:"dst_is_src,omitempty"`
+	L2    int    `json:"len2,omitempty"`
+	Circ2 bool   `json:"circular2,omitempty"`
+	Where int    `json:"where,omitempty"`
+	Feats []fdef `json:"feats,omitempty"`
+	Vals  []int  `json:"vals,omitempty"` // Trim: (limit - e) in quarters
 }
 
 const dnaLetters = "acmgrsvtwyhkdbn" // all distinct, all paired in DNAredundant
@@ -149,8 +149,8 @@ func mkFeats(fd []fdef) fset {
 }
 
 type qfeat struct {
-	off  int
-	e    []float64
+	off int
+	e   []float64
 }
 
 func (q *qfeat) Start() int             { return q.off }
